@@ -238,8 +238,21 @@ def convert_ellipsis_to_idx(
     if idx is Ellipsis:
         idx = (...,)
 
+    def _mask_extra_dims(item):
+        # a boolean mask indexes as many dims as it has: dims it takes beyond the first
+        if isinstance(item, Tensor) and item.dtype == torch.bool:
+            return item.ndim - 1
+        if isinstance(item, np.ndarray) and item.dtype == np.dtype("bool"):
+            return item.ndim - 1
+        return 0
+
     num_ellipsis = sum(_idx is Ellipsis for _idx in idx)
-    if num_dims < (len(idx) - num_ellipsis - sum(item is None for item in idx)):
+    if num_dims < (
+        len(idx)
+        - num_ellipsis
+        - sum(item is None for item in idx)
+        + sum(_mask_extra_dims(item) for item in idx)
+    ):
         raise RuntimeError("Not enough dimensions in TensorDict for index provided.")
 
     start_pos, after_ellipsis_length = None, 0
@@ -254,6 +267,8 @@ def convert_ellipsis_to_idx(
         if item is None:
             # unsqueeze
             num_dims += 1
+        else:
+            num_dims -= _mask_extra_dims(item)
 
     before_ellipsis_length = start_pos
     if start_pos is None:
